@@ -5,3 +5,9 @@ def register(check):
     check('C10', 'fault_enumeration', 'runtime monitor: scripted-socket fault enumeration with differential oracle',
           'The real send_msg/recv_msg pair is executed over a scripted transport: every segmentation of short streams (exhaustive), every single and double cut and every truncation offset of mid-size streams, seeded cuts/truncations of streams up to ~1 MB, FIN and RST endings; thorough adds real socketpairs with a dribbling sender. Oracle: message equality, ConnectionClosedError on truncation, logical spin bound.',
           'Transport model: recv(n) returns 1..n bytes, then b"" or ConnectionResetError. Held on the enumerated/sampled cuts only; payload classes are generated, not all picklable values.')
+    check('C13', 'exploration', 'runtime monitor: differential round-trip (remote_pickle vs pickle) with hook-call logging',
+          'Real remote_pickle.dumps/loads are run next to pickle on generated class hierarchies and object graphs (containers, shared references, cycles, __getstate__/__setstate__/__reduce__/__getnewargs__/__slots__/**kwargs variants), a standard-library value menu (incl. copyreg-registered types) and protocols 2-5, remote True/False; canonical forms and per-class hook logs must agree; standard pickle/copy/deepcopy/ForkingPickler must never pass remote=True; the opt-in consistency rule is checked on the exhaustive table of 1-3 class chains against an independent model.',
+          'Equivalence is judged by a canonical walk (shape, types, values, sharing, cycles) plus hook-call logs; graphs standard pickle cannot round-trip only require that remote_pickle fails too. Generated classes, not arbitrary user classes.')
+    check('C14', 'exploration', 'runtime monitor: enumerated arrangement grammar with per-instance hook-log oracle',
+          'Every arrangement of 0-4 opt-in instances in the grammar (siblings, containers, chains, shared, cyclic, mixed with plain objects) x class variants x protocols is round-tripped through the real remote_pickle; per-instance logs must show exactly one __getstate__(remote=True) and one __setstate__ with the own state, loads must succeed and the canonical shape must be preserved. Seeded random graphs over generated opt-in hierarchies widen it.',
+          'Arrangement grammar is finite and enumerated completely; opt-in classes keep attributes in __dict__. One open known finding (>=2 opt-in sibling attributes) is keyed by symptom+arrangement feature.')
